@@ -222,3 +222,59 @@ def run_lifetime(fn, *args, timeout=120.0):
         status = 'harness_error'
         error = f'child exited with unexpected status {code}'
     return {'status': status, 'code': code, 'events': events, 'obs': obs, 'error': error}
+
+
+def run_lifetime_fresh(module, func, args, scratch, *, flags=(), env=None, timeout=300.0):
+    """Run module.func(ctx, *args) as the main program of a fresh interpreter (see sim/fresh.py).  Same result shape
+    as run_lifetime.  `flags` are interpreter options (e.g. '-O'), `env` extra environment (e.g. PYTHONHASHSEED)."""
+    global _LIFETIME_NO
+    import subprocess
+    _LIFETIME_NO += 1
+    argp = os.path.join(scratch, f'.fresh_args_{_LIFETIME_NO}.pkl')
+    outp = os.path.join(scratch, f'.fresh_out_{_LIFETIME_NO}.bin')
+    with open(argp, 'wb') as f:
+        pickle.dump({'module': module, 'func': func, 'args': list(args), 'out': outp,
+                     'uuid_tag': f'{_RUN_TAG}/fresh{_LIFETIME_NO}'}, f)
+    e = dict(os.environ, VERIF_NO_REEXEC='1')
+    e.setdefault('PYTHONHASHSEED', '0')
+    e.update(env or {})
+    root = os.path.dirname(os.path.dirname(os.path.abspath(__file__)))
+    try:
+        p = subprocess.run([sys.executable, *flags, '-m', 'sim.fresh', argp], capture_output=True, text=True, env=e, cwd=root, timeout=timeout)
+        code = p.returncode
+    except subprocess.TimeoutExpired:
+        return {'status': 'timeout', 'code': None, 'events': [], 'obs': {}, 'error': 'fresh lifetime timed out'}
+    events, obs, error, done = [], {}, None, False
+    try:
+        with open(outp, 'rb') as f:
+            buf = f.read()
+    except OSError:
+        buf = b''
+    while len(buf) >= 8:
+        n = int.from_bytes(buf[:8], 'big')
+        if len(buf) < 8 + n:
+            break
+        kind, payload = pickle.loads(buf[8:8 + n])
+        buf = buf[8 + n:]
+        if kind == 'event':
+            events.append(payload)
+        elif kind == 'obs':
+            obs[payload[0]] = payload[1]
+        elif kind == 'harness_error':
+            error = payload
+        elif kind == 'done':
+            done = True
+    for q in (argp, outp):
+        try:
+            os.remove(q)
+        except OSError:
+            pass
+    if error is not None:
+        status = 'harness_error'
+    elif code in (137, -signal.SIGTERM):
+        status = 'crash'
+    elif code == 0:
+        status = 'exit' if done else 'crash_after_ack'
+    else:
+        status, error = 'harness_error', f'fresh interpreter exited {code}: {p.stderr[-1500:]}'
+    return {'status': status, 'code': code, 'events': events, 'obs': obs, 'error': error}
